@@ -24,6 +24,7 @@ Grid_Generator rgg(int n, bool must_point) {
 }
 Grid_Generator_System rggs(int n, int m) { Grid_Generator_System gs; gs.insert(rgg(n, true)); for (int i = 1; i < m; ++i) gs.insert(rgg(n, false)); return gs; }
 Grid rgrid(int n, bool may_be_empty = true) {
+  if (n == 0) return (may_be_empty && coin(30)) ? Grid(0, EMPTY) : Grid(0);
   int st = rnd(0, 9);
   if (!may_be_empty) { Grid g(n, EMPTY); g.add_grid_generators(rggs(n, rnd(1, 3))); if (coin()) (void) g.minimized_congruences(); return g; }
   if (st == 0) { Grid g(n, EMPTY); return g; }
